@@ -81,7 +81,7 @@ def run(chk):
 
     # ------------------------------------------------------------------ R01.1
     H0 = heads[0]
-    outs = it.run(tl, env=H0.env, cons=H0.cons, stop_at_entry_again=True)
+    outs = it.run(tl, env=H0.env, cons=H0.cons, stop_at_entry_again=True, trace=H0.trace)
     table = {}
     ncases = 0
     for o in outs:
